@@ -465,7 +465,8 @@ def parse_oracle(line):
 
 
 def build(ck):
-    gvh, err = ck.build_gvh(pkg="./cmd/gvh-close", name="gvh_close")
+    ov = os.environ.get("C10_OVERLAY")     # mutation experiments: go build -overlay
+    gvh, err = ck.build_gvh(pkg="./cmd/gvh-close", name="gvh_close" + ("_mut" if ov else ""), overlay=ov)
     if gvh is None:
         ck.violation("harness gvh-close does not build against /repo", {"kind": "build", "stderr": err[-3000:]}, no_input=True)
         return None, None
@@ -489,7 +490,7 @@ def evaluate(ck, gvh, oracle, cases):
         src = lua_program(b)
         run = model[i]["R"] != "FUEL"
         glines.append("c%d %s %s%s" % (i, src.encode().hex(), ds or "-", "" if run else " norun"))
-    gout = vlib.run_lines_resilient(gvh, [], glines, per_case_timeout=30)
+    gout = vlib.run_lines_resilient(gvh, [], glines, per_case_timeout=10)
     res = []
     for i, (fam, b, ds) in enumerate(cases):
         g = gout[i] if i < len(gout) else "c%d CRASH" % i
@@ -539,12 +540,15 @@ def judge(ck, r, counters):
     return diffs
 
 
-def shrink_block(b, still):
+def shrink_block(b, still, budget=60):
     """greedy AST reduction: drop statements / unwrap constructs while the failure persists"""
     changed = True
-    while changed:
+    while changed and budget > 0:
         changed = False
         for cand in reductions(b):
+            budget -= 1
+            if budget <= 0:
+                break
             if still(cand):
                 b = cand
                 changed = True
